@@ -155,16 +155,21 @@ def _order(repo, rep):
     rest = [s for s in body[1:] if not isinstance(s, (ast.AnnAssign,))
             or s.value is not None]
     ifs = [s for s in rest if isinstance(s, ast.If)]
-    ok = bool(ifs) and src(ifs[0].test) == "body.startswith(_xml_decl)"
+    pt, flip = L._CanonIf._pos(ifs[0].test) if ifs else (None, False)
+    ok = bool(ifs) and src(pt) == "body.startswith(_xml_decl)"
     rep.check(ok, "R17.1", site, "then the XML declaration", "decl-second",
               where=wh)
     if ok:
-        t = L.text(ifs[0], body_only=True)
+        # the branches as taken with / without a declaration, whichever way
+        # the test is written
+        yes, no = (ifs[0].orelse, ifs[0].body) if flip else \
+            (ifs[0].body, ifs[0].orelse)
+        t = L.StmtText(L._owner(ifs[0]), list(yes))
         rep.check("read_xml_encoding(body) or default_encoding" in t and
                   "content_type = 'text/xml'" in t, "R17.1", site,
                   "an XML declaration gives text/xml and its encoding, else "
                   "the default encoding", construct="decl-branch", where=wh)
-        t = " ".join(src(s) for s in ifs[0].orelse)
+        t = L.StmtText(L._owner(ifs[0]), list(no))
         rep.check("detect_encoding(body, default_encoding)" in t, "R17.1",
                   site, "without a declaration the meta charset decides, "
                   "else the default", construct="meta-third", where=wh)
